@@ -4,7 +4,7 @@
    shape check and by the runtime harness) returns a written, non-nil context error and always lets the watcher exit.
    NOT expressible here (runtime behaviour): wall-clock delay, the Go scheduler, the memory model of sync/atomic,
    goroutine accounting and the race detector -- covered by the harness runs of checks/c13.py as supporting evidence. *)
-From Z80V Require Import Proofs.RunProofs.
+From Z80V Require Import Proofs.SpecFacts Proofs.Refresh Proofs.DjnzLoop Proofs.TightLoop Proofs.RunProofs.
 
 Theorem C13_returns_at_instruction_boundary : forall fuel seen cpu cpu' r,
   Run fuel seen cpu = Some (cpu', r) -> exists j, (j <= fuel)%nat /\ cpu' = iter j (Run_enter cpu).
@@ -23,3 +23,19 @@ Theorem C13_watcher_always_exits : forall s, hreach s -> mainr s <> Running -> (
   exists s', hstep s s' /\ (w_measure s' < w_measure s)%nat /\ mainr s' = mainr s.
 Proof. exact watcher_can_exit. Qed.
 Print Assumptions C13_watcher_always_exits.
+
+(* ---- the tightest loop,  L: JR L  (18 FE), on the Run model with the generated Step, for EVERY fuel: Run never returns by
+   itself (no break point, no HALT ever), and when the cancellation flag is first seen at the head of iteration n it returns the
+   context's error with the CPU advanced by exactly n whole Steps: PC on the instruction, R = n ticks, everything else as on entry ---- *)
+Theorem C13_tight_loop_needs_cancellation : forall fuel cpu, jr_at cpu -> Run fuel never cpu = None.
+Proof. exact tight_loop_run_never_returns. Qed.
+Print Assumptions C13_tight_loop_needs_cancellation.
+Theorem C13_tight_loop_cancelled_at_boundary : forall n fuel seen cpu, jr_at cpu -> (n < fuel)%nat ->
+  (forall j, (j < n)%nat -> seen j = false) -> seen n = true ->
+  Run fuel seen cpu = Some (iter n (Run_enter cpu), RunCtxErr) /\
+  g_PC (iter n (Run_enter cpu)) = g_PC cpu /\ g_IR_Lo (iter n (Run_enter cpu)) = ticks n (g_IR_Lo cpu) /\
+  djnz_same cpu (iter n (Run_enter cpu)).
+Proof. exact tight_loop_run_cancel. Qed.
+Print Assumptions C13_tight_loop_cancelled_at_boundary.
+Example C13_tight_loop_premises_hold : jr_at jr_demo.
+Proof. exact jr_demo_premises. Qed.
